@@ -13,6 +13,10 @@ Two workload parts:
     family, every dtype alias, duplicated check kinds, ...)
   * ``random_spec(rng)``  random bases with 1-4 adversarial features combined
     (check statistics from the pools or, ``wide_values``, from a wide range).
+Cross-type part (``_xtype_catalogue`` / ``XVALUES``): statistics whose python
+type is not the value type of the component's dtype (float bounds on every
+integer dtype, integers on every float dtype, numbers on untyped components);
+``xtype_class`` names the pair, ``tokens`` reports it as ``<place>.xtype:*``.
 History part (what a read returns may not depend on earlier reads of the same
 process): ``_history_catalogue`` / ``_add_sibling`` put the same check (kind,
 dtype, fresh statistics) with different options on two components of one
@@ -81,7 +85,30 @@ STR = {
     # words that are also bare names / calls in a generated script
     "pyword": ["nan", "inf", "-inf", "is nan or inf", "NaT", "Timestamp",
                "Timedelta", "Check.isin"],
+    # characters a text format may treat as structure instead of content.
+    # The first value of each class combines its members (the quick tier
+    # takes one value per class), the others isolate them.
+    # unicode line breaks other than \n: NEL, LINE / PARAGRAPH SEPARATOR
+    "ulinebreak": ["a\x85b\u2028c\u2029d", "c\x85d", "a\u2028b", "a\u2029b",
+                   "\x85lead", "trail\x85", "two\x85\x85nel", "sp \x85 sp"],
+    # C0 / C1 control characters and DEL; \r and \r\n
+    "control": ["a\tb\x00c\x1bd\x7fe\x9ff\rg", "a\tb", "a\rb", "a\r\nb",
+                "a\x00b", "a\x1bb", "a\x7fb", "a\x9fb", "\x07"],
+    # characters without a glyph: BOM, no-break space, zero width, bidi
+    "invisible": ["\ufeffa\xa0b\u200dc\u202ed\u200b", "\ufeffab", "a\ufeffb",
+                  "a\xa0b", "a\u200db", "\u202eabc", "e\u0301"],
+    # outside the basic multilingual plane (a surrogate pair in UTF-16)
+    "astral": ["ok \U0001F600", "\U00010348x", "\uffff\ufffe"],
+    # white space at the edges / white space only / runs of white space
+    "edgews": [" \ta\n", " ", "a  b", "\ta", "a\t", "a\n", "\na", "\n",
+               "a \n b", "a\n\nb", "  two", "two  "],
+    # longer than the line width of the text formats (folding / wrapping)
+    "long": ["word " * 30 + "end", "x" * 200, "ab  " * 30,
+             "word " * 20 + "\x85" + "x", "it's \"q\" " * 12],
 }
+ULINEBREAK = "\x85\u2028\u2029"
+INVISIBLE = "\ufeff\xa0\u200b\u200c\u200d\u200e\u200f\u202a\u202b\u202c" \
+    "\u202d\u202e\u2060"
 PYWORD = re.compile(r"\b(nan|inf|NaT|NA|Timestamp|Timedelta|Check|Column|"
                     r"Index|DataFrameSchema)\b")
 
@@ -105,6 +132,19 @@ def str_class(s):
         out.add("brace")
     if any(ord(c) > 127 for c in s):
         out.add("unicode")
+    if any(c in ULINEBREAK for c in s):
+        out.add("ulinebreak")
+    if any((ord(c) < 32 and c not in "\n\r") or 127 <= ord(c) < 160
+           and c != "\x85" for c in s):
+        out.add("control")
+    if any(c in INVISIBLE for c in s):
+        out.add("invisible")
+    if any(ord(c) > 0xFFFF for c in s):
+        out.add("astral")
+    if s and (s != s.strip() or "  " in s):
+        out.add("edgews")
+    if len(s) > 80:
+        out.add("long")
     if s in STR["keyword"]:
         out.add("keyword")
     if s in STR["yamlish"]:
@@ -209,7 +249,73 @@ VALUES["cat"] = [("str-plain", "a"), ("str-plain", "b"), ("str-space", "c d")]
 PATTERNS = [("str-plain", "abc"), ("str-regex", r"^a\d+$"),
             ("str-regex", r"[a-z]{2,}\.x"), ("str-squote", "a'b"),
             ("str-dquote", 'x"y'), ("str-backslash", "\\\\d"),
-            ("str-pyword", "nan|inf")]
+            ("str-pyword", "nan|inf"), ("str-ulinebreak", "c\x85d|\u2028"),
+            ("str-control", "a\tb|\x00"), ("str-unicode", "\xe9+\xa0?")]
+
+
+# statistics whose python type is not the one of the component's dtype: a
+# float bound on integer data (less_than(2.5), in_range(-0.5, inf), whole
+# floats), an integer / a bool on float data (bigints that a float cannot
+# hold), numbers on untyped / object data.  All of them are ordinary uses of
+# the builtin checks; a reader or writer that converts statistics "to the
+# column's dtype" shows only here.
+XVALUES = {
+    "int": [("float-frac", 2.5), ("float-whole", 3.0), ("float-frac", -0.5),
+            ("nonfinite", float("inf")), ("float-frac", 0.1), ("int", 1),
+            ("float-whole", 1e300), ("negzero", -0.0), ("float-frac", 254.5),
+            ("nonfinite", float("-inf")), ("float-whole", -7.0), ("int", -7),
+            ("bool", True), ("float-frac", 1e-320)],
+    "float": [("int", 2), ("bigint", 2 ** 53 + 1), ("int", 0), ("float", 1.5),
+              ("bigint", 2 ** 63 - 1), ("int", -7), ("bigint", -2 ** 63),
+              ("bigint", 10 ** 30), ("bool", True), ("float", -2.25)],
+}
+XVALUES["untyped"] = XVALUES["int"][:6] + XVALUES["float"][:3] + [
+    ("str-plain", "abc"), ("str-yamlish", "1.5")]
+INT_DTYPES = ["int64", "uint8", "Int64", "int16", "UInt32", "int8", "int32",
+              "uint16", "uint32", "uint64", "Int8", "Int16", "Int32", "UInt8",
+              "UInt16", "UInt64", "int64[pyarrow]"]
+FLOAT_DTYPES = ["float64", "float32", "Float64", "float16", "Float32",
+                "double[pyarrow]"]
+XKINDS = ["less_than", "greater_than_or_equal_to", "in_range", "isin",
+          "equal_to", "greater_than", "less_than_or_equal_to", "notin",
+          "not_equal_to", "unique_values_eq"]
+
+
+def xtype_class(dtype, v):
+    """Class of a statistic whose python type differs from the value type
+    of the dtype family (None when they agree / not applicable)."""
+    if isinstance(v, list):
+        cs = sorted({c for c in (xtype_class(dtype, x) for x in v) if c})
+        return "+".join(cs) if cs else None
+    if isinstance(dtype, dict) or isinstance(v, (pd.Timestamp, pd.Timedelta)):
+        return None
+    fam = family(dtype) if dtype is not None else "untyped"
+    if dtype in ("object",):
+        fam = "untyped"
+    num = isinstance(v, (int, float)) and not isinstance(v, bool)
+    if fam == "int":
+        if isinstance(v, bool):
+            return "bool-on-int"
+        if isinstance(v, float):
+            if math.isinf(v) or math.isnan(v):
+                return "nonfinite-on-int"
+            return "float-whole-on-int" if v.is_integer() else \
+                "float-frac-on-int"
+        if isinstance(v, str):
+            return "str-on-int"
+    elif fam == "float":
+        if isinstance(v, bool):
+            return "bool-on-float"
+        if isinstance(v, int):
+            return "bigint-on-float" if abs(v) > 2 ** 53 else "int-on-float"
+        if isinstance(v, str):
+            return "str-on-float"
+    elif fam == "untyped":
+        if isinstance(v, float):     # an int there is the generator's default
+            return "float-on-untyped"
+    elif fam in ("str", "cat") and (num or isinstance(v, bool)):
+        return "number-on-" + fam
+    return None
 
 
 def _ordered(fam):
@@ -506,10 +612,15 @@ def value_class(v):
     return type(v).__name__
 
 
-def _check_tokens(prefix, c):
+def _check_tokens(prefix, c, dtype="?"):
     t = [f"{prefix}.check:{c['kind']}"]
     for k, v in sorted(c["args"].items()):
         t.append(f"{prefix}.check-arg:{value_class(dec(v))}")
+        x = None if dtype == "?" or k.startswith("include_") or \
+            c["kind"] == "str_length" else \
+            xtype_class(dtype, dec(v))
+        for cls in (x.split("+") if x else ()):
+            t.append(f"{prefix}.xtype:{cls}")
     for o in sorted(c["opts"]):
         t.append(f"{prefix}.check-opt:{o}")
     return t
@@ -548,7 +659,7 @@ def tokens(spec):
         comps = spec[part] or []
         for i, c in enumerate(comps):
             for k in c["checks"]:
-                t += _check_tokens(pre, k)
+                t += _check_tokens(pre, k, c["dtype"])
             kinds = [k["kind"] for k in c["checks"]]
             if len(kinds) != len(set(kinds)):
                 t.append(f"{pre}.checks:duplicate-kind")
@@ -737,7 +848,63 @@ def catalogue(full=True):
             c = make_check(kind, "str", cycle([(cls, v)]), 0)
             add(f"col.check-pattern:{cls}:{kind}",
                 base_spec([col("c0", "str", checks=[c])]))
+    out += _xtype_catalogue(full)
     out += _history_catalogue(full, fams)
+    return out
+
+
+def _xtype_catalogue(full):
+    """Statistics of another python type than the component's data (see
+    ``XVALUES``): every integer dtype with float statistics, every float
+    dtype with integer statistics, untyped / object components with numbers,
+    on columns, index levels and under a dataframe-level check."""
+    out = []
+    add = lambda label, s: out.append((label, s))
+    picks = {k: cycle(v) for k, v in XVALUES.items()}
+
+    def mk(kind, pool, variant):
+        c = make_check(kind, "int", picks[pool], variant, vals=XVALUES[pool])
+        if variant % 2 and kind in ALIASES:
+            c["via"] = ALIASES[kind]
+        return c
+
+    nk = len(XKINDS) if full else 5
+    for di, dt in enumerate(INT_DTYPES if full else INT_DTYPES[:5]):
+        for ki, kind in enumerate(XKINDS[:nk]):
+            for variant in (range(2) if full else [di + ki]):
+                add(f"xtype.col:float-on-int:{kind}", base_spec(
+                    [col("c0", dt, checks=[mk(kind, "int", variant)])]))
+    for dt in (INT_DTYPES[::3] if full else ["int64", "UInt8"]):
+        for kind in (XKINDS if full else ["greater_than", "in_range",
+                                          "notin"]):
+            add(f"xtype.idx:float-on-int:{kind}", base_spec(
+                [col("c0"), col("c1", "str")],
+                index=[level("i", dt, checks=[mk(kind, "int", 1)])]))
+    for di, dt in enumerate(FLOAT_DTYPES if full else FLOAT_DTYPES[:3]):
+        for ki, kind in enumerate(XKINDS if full else
+                                  ["less_than", "isin", "in_range"]):
+            for variant in (range(2) if full else [di + ki]):
+                add(f"xtype.col:int-on-float:{kind}", base_spec(
+                    [col("c0", dt, checks=[mk(kind, "float", variant)])]))
+        add("xtype.idx:int-on-float", base_spec(
+            [col("c0")], index=[level("i", dt, checks=[
+                mk("less_than_or_equal_to", "float", 0)])]))
+    for dt in (None, "object") + (("str", "category") if full else ()):
+        for kind in (XKINDS if full else ["less_than", "isin"]):
+            add(f"xtype.col:number-on-untyped:{kind}", base_spec(
+                [col("c0", dt, checks=[mk(kind, "untyped", 2)])]))
+    # dataframe-level checks are written without any dtype
+    for kind in (XKINDS if full else ["less_than", "isin", "in_range"]):
+        add(f"xtype.frame:float-on-int:{kind}", base_spec(
+            [col("c0"), col("c1", "Int64")], checks=[mk(kind, "int", 2)]))
+    # both kinds of statistics side by side on one component
+    a = make_check("greater_than", "int", cycle([("float-frac", 0.5)]), 0)
+    b = make_check("less_than", "int", cycle([("int", 9)]), 0)
+    c = make_check("isin", "int", cycle([("int", 1), ("float-frac", 2.5),
+                                         ("float-whole", 4.0)]), 2)
+    for dt in ("int64", "UInt8", "float32"):
+        add("xtype.col:mixed-statistics", base_spec(
+            [col("c0", dt, checks=copy.deepcopy([a, b, c]))]))
     return out
 
 
@@ -882,6 +1049,16 @@ def _rand_check(rng, dtype):
         fam = "int"
     kind = rng.choice(check_kinds(fam))
     vals = wide_values(fam, rng) if rng.random() < 0.3 else None
+    xfam = fam if dtype not in (None, "object") else "untyped"
+    if xfam in XVALUES and not kind.startswith("str_") and \
+            rng.random() < (0.25 if xfam != "untyped" else 0.15):
+        # statistics of another python type than the data (see XVALUES),
+        # pool values or wide ones with a fractional part / none
+        vals = list(XVALUES[xfam])
+        if rng.random() < 0.4:
+            vals = [("wide", v[1] + rng.choice([0.5, 0.25, 0.0]))
+                    for v in wide_values("int", rng)] if xfam != "float" \
+                else wide_values("int", rng)
     c = make_check(kind, fam, rng.choice, rng.randrange(8), vals=vals)
     if kind in ALIASES and rng.random() < 0.5:
         c["via"] = ALIASES[kind]
